@@ -242,8 +242,6 @@ class Gen:
                 for b in sorted(ed):
                     near.append(w[:i] + bytes([b]) + w[i + 1:])     # one-byte edits
         rng.shuffle(near)
-        if self.tier == 'quick':
-            near = near[:6000]
         for i, w in enumerate(near):
             self.emit('get L0 ' + hx(w))
             if i % 9 == 0:
@@ -301,9 +299,9 @@ class Gen:
             self.emit(op)
             self.reread_some(3)
         self.fill_to(0, 7)
-        for n in ([16 * B, 16 * B + 16] if self.tier == 'quick' else [16 * B - 1, 16 * B, 16 * B + 1, 16 * B + 16, 48 * B]):
+        for n in ([16 * B, 16 * B + 16, 33 * B] if self.tier == 'quick' else [16 * B - 1, 16 * B, 16 * B + 1, 16 * B + 16, 33 * B, 48 * B]):
             op, _ = word_op(rng, 0, n)
-            self.emit(op)                              # ~1 MiB (thorough: 3 MiB) oversize
+            self.emit(op)                              # ~1 MiB, 2 MiB (thorough: 3 MiB) oversize
             op, _ = word_op(rng, 0, rng.randint(1, 20))
             self.emit(op)
             self.reread_some(2)
@@ -332,7 +330,7 @@ class Gen:
             i += 1
         self.done()
 
-    def mix(self, nops, M, label):
+    def mix(self, nops, M, label, big=0.03, every=1000):
         rng, B = self.rng, self.B
         self.start(label, M)
         hist = []
@@ -361,7 +359,7 @@ class Gen:
                     n = rng.randint(1, 24)
                 elif y < 0.85:
                     n = rng.randint(25, 200)
-                elif y < 0.97:
+                elif y < 1 - big:
                     n = rng.randint(200, 6000)
                 else:
                     n = rng.choice([B - 1, B, B + 1, 2 * B, 3 * B + 5])
@@ -370,7 +368,7 @@ class Gen:
                 hist.append(op)
             if rng.random() < 0.3:
                 self.reread_some(1)
-            if self.tier == 'thorough' and i % 1000 == 999:
+            if self.tier == 'thorough' and i % every == every - 1:
                 self.ops.append('rereadall')
         self.done()
 
@@ -387,7 +385,7 @@ def generate(B, known, rng, tier):
         g.mix(4000, 7, 'mix-few-buckets')
     else:
         g.mix(6000, 7, 'mix-few-buckets')
-        g.mix(60000, 4093, 'mix-long')
+        g.mix(150000, 4093, 'mix-long', big=0.002, every=25000)
         g.pool_filling()
     return g
 
@@ -585,21 +583,24 @@ def judge(probe, ops, kset, stats=None, with_model=True):
 
 
 def shrink(probe, ops, kset, key, upto):
-    """ddmin over the ops of the failing trace (the `arena` line stays)."""
+    """ddmin over the ops of the failing trace (the `arena` line stays).  Names n<k> shift when ops are removed, so the
+    re-reads are first replaced by one `rereadall` at the end (kept if the failure survives that)."""
     head, body = ops[0], ops[1:upto + 1]
-    if sum(len(o) for o in body) > 4_000_000 or len(body) > 30000:
-        budget = 12
-    else:
-        budget = 60
+    budget = 12 if (sum(len(o) for o in body) > 4_000_000 or len(body) > 30000) else 80
+    wm = key.startswith('correspondence')
 
-    def fails(sub):
-        r = judge(probe, [head] + sub, kset, with_model=key.startswith('correspondence'))
-        return r is not None and r[1] == key
+    def fails_with(tail):
+        def fails(sub):
+            r = judge(probe, [head] + sub + tail, kset, with_model=wm)
+            return r is not None and r[1] == key
+        return fails
     try:
-        small = C.ddmin(body, fails, max_tests=budget)
+        plain = [o for o in body if not o.startswith('reread')]
+        if fails_with(['rereadall'])(plain):
+            return [head] + C.ddmin(plain, fails_with(['rereadall']), max_tests=budget) + ['rereadall']
+        return [head] + C.ddmin(body, fails_with([]), max_tests=budget)
     except Exception:
-        small = body
-    return [head] + small
+        return [head] + body
 
 
 def new_stats(B):
@@ -637,8 +638,8 @@ def run(tier):
         if r is None:
             continue
         i, key, msg, found = r
-        if key in reported:
-            continue
+        if key in reported or (not found and any(v[3] for v in res.violations)):
+            continue                                   # one report per kind; a concrete failing input makes tie reports redundant
         reported.add(key)
         small = shrink(probe, ops, kset, key, i)
         r2 = judge(probe, small, kset, with_model=key.startswith('correspondence'))
